@@ -409,6 +409,7 @@ def run(ctx, rep):
         rep, "C11.export-aliases", F,
         allowed_creators={"bytecode::stack::PrimitiveFlagsPair::new", "bytecode::stack::PrimitiveModule::new"},
         allowed_new_callers={"bytecode::stack::Stack::register_variable_local", "bytecode::instruction::implementations::export_special"})
+    queue_drained(F, rep)
 
 
 def rules_fn_arg(fn, op):
@@ -425,3 +426,31 @@ def rules_fn_arg(fn, op):
             if k and "fn" in k:
                 return k["fn"]
     return None
+
+
+def queue_drained(F, rep):
+    """Every module an import queued is compiled: CompilationState::compile_recursive_interior walks the whole queue.  The Option it tests at the
+    head of the walk comes straight from the queue (`view.take()`, then `h.next`), not through a predicate (`filter`, `take_while`, ..) that could
+    end the walk at a step that merely looks done and leave the steps behind it uncompiled."""
+    f = need(F, "compiler::ast::CompilationState::compile_recursive_interior")
+    STEP = "compiler::ast::CompilationStep"
+    tested = []
+    for bi, blk in enumerate(f.blocks):
+        t = blk["t"]
+        if t["k"] != "switch" or t.get("dty") != "isize":
+            continue
+        dl = op_local(t["discr"])
+        for s in blk["s"]:
+            if "d" in s and s["d"].get("l") == dl and "discr" in s["rv"] and not s["rv"]["discr"].get("p"):
+                l = s["rv"]["discr"]["l"]
+                if STEP in f.locals[l] and f.locals[l].strip().startswith("core::option::Option<") and bi in f.reachable(bi, removed_blocks=()) and any(
+                        bi in f.reachable(sx) for sx in f.succs(bi)):
+                    tested.append((bi, l))
+    rep.floor("C11.queue-drained tests of the queue node in compile_recursive_interior", len(tested), 1)
+    ALLOWED = ("core::option::Option::take", "core::mem::take", "core::mem::replace")
+    for bi, l in tested:
+        oc = rules.origin_calls(f, l)
+        other = sorted({mir.short(c.callee()) for c in oc if not c.matches(ALLOWED)})
+        rep.ob("C11.queue-drained", "the walk over the compilation queue ends only at the end of the queue", "violated" if other else "ok",
+               ("the tested node goes through %s: a step that fails the predicate ends the walk and every module queued behind it is never compiled" % other) if other
+               else "node comes from %s and the `next` links" % sorted({mir.short(c.callee()) for c in oc}), f.span, fn=f.path, key="C11.queue-drained|bb%d" % 0)
